@@ -86,10 +86,25 @@ pub fn gen_price_case(r: &mut Rng, exact: bool, rich: bool) -> PriceCase {
     comms.sort();
     let nprices = 1 + r.below(8) as usize;
     // graph shape: random pairs (cycles, parallel records) / a chain / a star / two islands
-    let shape = r.below(5);
+    let mut shape = r.below(7);
+    if shape >= 5 && ncomm < 4 {
+        shape = r.below(5);
+    }
+    // diamond: two two-step chains between comms[0] and comms[1] (via comms[2] and via
+    // comms[3]), sometimes with a direct quote as well: the choice between them is made by
+    // ledger hops, then hops, then staleness
+    let nprices = if shape >= 5 { 4 + r.below(3) as usize } else { nprices };
     let mut pairs: Vec<(usize, usize)> = Vec::new();
     for k in 0..nprices {
         let (a, b) = match shape {
+            5 | 6 => match k {
+                0 => (comms[0], comms[2]),
+                1 => (comms[2], comms[1]),
+                2 => (comms[0], comms[3]),
+                3 => (comms[3], comms[1]),
+                4 => (comms[0], comms[1]),
+                _ => (comms[2], comms[3]),
+            },
             0 | 1 => {
                 let a = *r.pick(&comms);
                 let mut b = *r.pick(&comms);
@@ -126,13 +141,13 @@ pub fn gen_price_case(r: &mut Rng, exact: bool, rich: bool) -> PriceCase {
             }
         }
     }
-    let db_share = *r.pick(&[0u64, 20, 40, 70, 100]);
+    let db_share = if shape >= 5 { *r.pick(&[100u64, 100, 0, 50, 75]) } else { *r.pick(&[0u64, 20, 40, 70, 100]) };
     for (x, y) in pairs {
         let date = base + r.range(0, span) as i32;
         let (rm, rs) = pick_rate(r, exact);
         if r.chance(db_share, 100) {
             // price DB line; now and then a zero or negative rate, or a self-mention
-            let (m, target, comm) = match r.below(40) {
+            let (m, target, comm) = match if shape >= 5 { 39 } else { r.below(40) } {
                 0 => (0, x, y),
                 1 => (-rm, x, y),
                 2 => (rm, x, x),
